@@ -38,6 +38,15 @@ class CollectionField(FieldType):
         # Store the data as a Collection
         self.data = data
 
+    def copy(self):
+        """Shallow copy. The collection and the fields in it are copied, the data of the fields are not"""
+        new_field = super().copy()
+        new_field.data = self._factory()
+        new_field.data._default_field_suffix = self.data._default_field_suffix
+        for field_name, field in self.data._fields.items():
+            new_field.data._fields[field_name] = field.copy()
+        return new_field
+
     def unit(self, subfield):
         """Unit(s) of field"""
         if not subfield:
